@@ -14,7 +14,8 @@ TRUSTED = [
 ]
 RULE = ("inputs: exhaustive token-class sequences (one representative per lexical class incl. error classes), "
         "random token soups, grammar-derived sentences rendered spaced/tight/messy, their token-level mutations, "
-        "byte/non-ASCII noise insertions, nested #ifdef arrangements, corpus files and corpus prefixes; "
+        "byte/non-ASCII noise insertions, nested #ifdef arrangements, bracket/statement/directive nesting at boundary depths "
+        "(2^k-1, 2^k, 2^k+1 up to 513 quick / 1025 thorough, each followed by text that must survive), corpus files and corpus prefixes; "
         "a case is non-trivial if its text is non-empty and distinct from all others in its stream")
 FINISH = dict(level="proof", trusted_base=TRUSTED, rule=RULE)
 
@@ -44,6 +45,7 @@ def inputs(ck):
     streams["noise"] = noisy
     streams["prep"] = [gen.prep_nests(rng, rng.choice([1, 2, 3, 4])) + rng.choice(["", "class Z;", "#ifdef Q\nclass W"])
                        for _ in range(300 if quick else 30000)]
+    streams["nesting"] = gen.deep_nests(rng, quick)
     files = gen.corpus_files()
     streams["corpus"] = [t for _, t in files]
     prefixes = []
